@@ -17,11 +17,49 @@ def build(tier):
         groups = [z3lemma.StaticGroup("skeleton.extraction", ok=False, detail=str(e), obligation="extraction of the solver skeleton", undecided_on_fail=True)]
     groups.append(skel.init_coverage(report))
     groups.append(skel.catch_handlers(report))
+    groups += stock_operator_groups(report)
 
     meta = {"level": "proof", "trusted_base": SG.TRUSTED, "assumptions": SG.ASSUMPTIONS, "extraction": report,
             "not_covered": ['bit-identity of the rerun (follows from C06 under its determinism assumption)'],
             "explanation": 'the operator stub may throw at every application; extraction propagates the flag exactly as C++ unwinding (no try/catch in these classes)'}
     return groups, meta
+
+
+def stock_operator_groups(report):
+    """The one stock operator that can fail at run time by itself (SparseRegularInverse: conjugate gradient may not converge): a failed solve() must not
+    poison later ones - the status and the decision to throw depend on THIS solve only, whatever state an earlier failure left behind."""
+    from vlib import extract as X
+    from vlib import cgen
+    from vlib import common
+    from vlib.runner import Group
+    from vlib.spec import FSpec
+    RH = "MatOp/SparseRegularInverse.h"
+    f = X.locate(RH, "solve", cls="SparseRegularInverse")
+    types = '#include "skel.h"\n' + common.enum_defines("Util/CompInfo.h", "CompInfo") + r'''
+typedef struct { Index m_n; CompInfo m_info; _Bool cg_ok; /* ghost: did the conjugate-gradient run of the CURRENT solve() converge */ } RegInv;
+#define EIGEN_SUCCESS 0
+#define EIGEN_NOCONV 2
+static void CG_SOLVE(RegInv *R, const Scalar *x, Scalar *y)
+{ __CPROVER_assert(__CPROVER_r_ok(x, R->m_n * sizeof(Scalar)) && __CPROVER_w_ok(y, R->m_n * sizeof(Scalar)), "CG solve: x_in / y_out are length-n vectors"); R->cg_ok = nondet_bool(); __CPROVER_havoc_object(y); }
+'''
+    spec = FSpec("reginv_solve", "void", [("RegInv *", "R"), ("const Scalar *", "x_in"), ("Scalar *", "y_out")],
+                 pre=[("operator in ANY prior state (also the one left behind by an earlier failed solve)", "0 <= R->m_n && R->m_n <= NMAX && VEC_SIZE(x_in) == R->m_n && VEC_SIZE(y_out) == R->m_n")],
+                 post=[("normal return only when THIS conjugate-gradient run converged; status says Successful", "R->cg_ok && R->m_info == CompInfo_Successful")],
+                 exc_post=[("throws runtime_error only when THIS run did not converge (an earlier failure does not poison later solves); status says NotConverging",
+                            "!R->cg_ok && verif_exc == EXC_runtime_error && R->m_info == CompInfo_NotConverging")],
+                 frame=["R->m_info", "R->cg_ok"], frame_objs=["y_out"], may_throw=[2], real=RH + ":solve")
+    pre = [("maps", r"MapConstVec x\(x_in, m_n\);\s*MapVec y\(y_out, m_n\);", "", {"max": 1}),
+           ("cg", r"y\.noalias\(\) = m_cg\.solve\(x\);", "CG_SOLVE(R, x_in, y_out);", {"max": 1}),
+           ("cginfo", r"m_cg\.info\(\)", "(R->cg_ok ? EIGEN_SUCCESS : EIGEN_NOCONV)", {"min": 1, "max": 3}),
+           ("success", r"Eigen::Success", "EIGEN_SUCCESS", {"min": 1, "max": 3})]
+    t, R = cgen.emit(f, "reginv_solve", ret_c="void", self_type="RegInv", self_name="R", members=["m_n", "m_info"], param_types={"x_in": "const Scalar *", "y_out": "Scalar *"},
+                     pre_rules=pre, contract=spec.frame_contract())
+    report["SparseRegularInverse::solve"] = R.fired
+    h = spec.harness("h", "  RegInv Rv; RegInv *R = &Rv; R->m_n = nondet_Index(); __CPROVER_assume(0 <= R->m_n && R->m_n <= NMAX); R->m_info = nondet_int(); R->cg_ok = nondet_bool(); "
+                          "const Scalar *x_in = VEC_NEW(R->m_n); Scalar *y_out = VEC_NEW(R->m_n);", "R, x_in, y_out")
+    return [Group("stockop.SparseRegularInverse.solve", types + t + h, "h", enforce="reginv_solve", solver="cadical", defines=["SCALAR_DOUBLE"], timeout=300,
+                  functions=[RH + ":SparseRegularInverse::solve"], expect_classes=["reginv_solve", "CG solve"],
+                  note="the conjugate-gradient run itself is an opaque call with a nondeterministic outcome; proved from ANY prior status")]
 
 
 def replay(g, o, assigns, path):
